@@ -26,7 +26,7 @@ import (
 func init() {
 	setTier("C06", 60000, 240, 1500000, 1800)
 	levelOf["C06"] = "exploration"
-	ruleOf["C06"] = "one run = one seeded scenario (direct or queue mode, 1-4 sender tasks x 2-6 sends of unique packs of mixed type/size/license, 0-3 seeded connection faults) under one seeded schedule, followed by a heal-and-recover phase; oracles O1-O7 over the bytes each simulated connection received, parsed by an independent frame parser (plus, since later waves: quiet periods beyond the 60 s time-outs, frames within a few bytes of the 2 MiB write buffer, a slow collector that is not a fault, an application-level Close after the senders); non-trivial = a context switch inside a send or at least one fired fault; distinct = distinct fingerprint of (switch sequence, fault sequence, per-send outcome, received frame order)"
+	ruleOf["C06"] = "one run = one seeded scenario (direct or queue mode, 1-4 sender tasks x 2-6 sends of unique packs of mixed type/size/license, 0-3 seeded connection faults) under one seeded schedule, followed by a heal-and-recover phase; oracles O1-O7 over the bytes each simulated connection received, parsed by an independent frame parser (plus, since later waves: quiet periods beyond the 60 s time-outs, frames within a few bytes of the 2 MiB write buffer, a slow collector that is not a fault, an application-level Close after the senders, a manual drain through SendAndClear() after the application stopped the background goroutine, a heal that brings back only one of the two servers); non-trivial = a context switch inside a send or at least one fired fault; distinct = distinct fingerprint of (switch sequence, fault sequence, per-send outcome, received frame order)"
 	assumptionsOf["C06"] = []string{
 		"TCP is modelled by simnet: a passive collector per accepted connection; faults = dial refused/timeout, peer close (FIN) at a stream offset or while idle, peer reset at a stream offset (mid-write possible), first write after FIN accepted and lost, stalled reader with a 64 KiB send buffer and the client's own write deadline",
 		"preemption between any two statements of net/oneway, util/queue, util/list, util/dateutil and inside lock, sleep and network operations",
